@@ -246,6 +246,11 @@ impl Edit {
 			start += 1;
 		}
 
+		// The scan above is bytewise: step back to a character boundary of both strings
+		while start > 0 && (!a.is_char_boundary(start) || !b.is_char_boundary(start)) {
+			start -= 1;
+		}
+
 		if start == a.len() && start == b.len() {
 			return Edit {
 				pos: start,
@@ -268,7 +273,13 @@ impl Edit {
 			end_b -= 1;
 		}
 
-		// Slice off the prefix and suffix for both (safe because start/end are byte offsets)
+		// Same for the common suffix: move forward to a character boundary of both strings
+		while end_a < a.len() && (!a.is_char_boundary(end_a) || !b.is_char_boundary(end_b)) {
+			end_a += 1;
+			end_b += 1;
+		}
+
+		// Slice off the prefix and suffix for both (start/end are on character boundaries)
 		let old_diff = a[start..end_a].to_string();
 		let new_diff = b[start..end_b].to_string();
 
